@@ -15,3 +15,44 @@ package core
 //@ opt frame off
 //@ requires bc != nil && block != nil
 //@ call dao::(*Simple).Persist requires[halted] arg0 == systemInterop.DAO ==> !v.failed
+
+//@ prop C06
+//@ import block github.com/nspcc-dev/neo-go/pkg/core/block
+//@ import blk github.com/nspcc-dev/neo-go/pkg/core/block
+//@ import util github.com/nspcc-dev/neo-go/pkg/util
+//@ import hash github.com/nspcc-dev/neo-go/pkg/crypto/hash
+
+//@ pkg-invariant ErrHdrHashMismatch != nil && ErrHdrIndexMismatch != nil && ErrHdrInvalidTimestamp != nil && ErrHdrInvalidStateRoot != nil
+
+// Outcome of witness verification of a container against an account (script execution is
+// outside the verifier's reach: uninterpreted, VerifyWitness is assumed to compute it).
+//@ spec witnessOK(bc *Blockchain, h util.Uint160, c hash.Hashable) bool
+//@ func (*Blockchain).VerifyWitness
+//@ assumed
+//@ pure
+//@ ensures result1 == nil ==> witnessOK(bc, h, c)
+
+//@ func (*Blockchain).verifyHeaderWitnesses
+//@ requires bc != nil && currHeader != nil && prevHeader != nil
+//@ call VerifyWitness requires[gas] arg4 == HeaderVerificationGasLimit
+//@ ensures[witness] result == nil ==> witnessOK(bc, prevHeader.NextConsensus, hash.Hashable(currHeader))
+
+// A header is accepted only as the direct, later, correctly signed successor of prevHeader,
+// carrying the local previous state root when state roots are in headers.
+//@ func (*Blockchain).verifyHeader
+//@ requires bc != nil && currHeader != nil && prevHeader != nil && bc.stateRoot != nil
+//@ ensures[link] result == nil ==> block.hdrHash(prevHeader) == currHeader.PrevHash && (prevHeader.Index + 1) % 4294967296 == currHeader.Index && prevHeader.Timestamp < currHeader.Timestamp
+//@ ensures[stateroot] result == nil && bc.config.StateRootInHeader && bc.stateRoot.height == prevHeader.Index ==> currHeader.PrevStateRoot == bc.stateRoot.root
+//@ ensures[witness] result == nil ==> witnessOK(bc, prevHeader.NextConsensus, hash.Hashable(currHeader))
+
+// A block reaches storeBlock only with the next index, the configured state-root setting and
+// (unless verification is switched off) the Merkle root of its own transactions.
+//@ func (*Blockchain).AddBlock
+//@ may-panic
+//@ opt frame off
+//@ opt opaque-callees (*Transaction).Hash,(*Pool).Add,(*Pool).ContainsKey
+//@ opt stable block.Header.Index, block.Header.StateRootEnabled, block.Header.MerkleRoot, bc.config.StateRootInHeader, bc.config.SkipBlockVerification
+//@ requires bc != nil && block != nil
+//@ call storeBlock requires[index] block.Index == expectedHeight
+//@ call storeBlock requires[setting] bc.config.StateRootInHeader == block.StateRootEnabled
+//@ call storeBlock requires[merkle] !bc.config.SkipBlockVerification ==> block.MerkleRoot == blk.blockMerkle(block)
